@@ -41,7 +41,7 @@ theorem decodeHdr_encHdr (h : Hdr) (tail : Bytes) (hop : h.opcode < 16) (hlen : 
     have e_pl : (bit masked 128 + len) % 128 = len := by unfold bit; split <;> omega
     have n1 : ¬ len = 126 := by omega
     have n2 : ¬ len = 127 := by omega
-    simp [decodeHdr, b_toNat _ hb0, b_toNat _ hb1, e_op, e_fin, e_r1, e_r2, e_r3, e_m, e_pl, n1, n2]
+    simp [decodeHdr, mkHdr, b_toNat _ hb0, b_toNat _ hb1, e_op, e_fin, e_r1, e_r2, e_r3, e_m, e_pl, n1, n2]
     cases masked <;> simp
   · simp only [h1, if_false]
     by_cases h2 : len ≤ 65535
@@ -52,7 +52,7 @@ theorem decodeHdr_encHdr (h : Hdr) (tail : Bytes) (hop : h.opcode < 16) (hlen : 
       have ht : (beEnc 2 len ++ tail).take 2 = beEnc 2 len := by
         rw [List.take_append_of_le_length (by simp [beEnc_length])]
         exact List.take_of_length_le (by simp [beEnc_length])
-      simp [decodeHdr, b_toNat _ hb0, b_toNat _ hb1, e_op, e_fin, e_r1, e_r2, e_r3, e_m, e_pl, ht,
+      simp [decodeHdr, mkHdr, b_toNat _ hb0, b_toNat _ hb1, e_op, e_fin, e_r1, e_r2, e_r3, e_m, e_pl, ht,
         beDec_beEnc 2 len (by omega), beEnc_length]
       cases masked <;> simp
     · simp only [h2, if_false]
@@ -66,7 +66,7 @@ theorem decodeHdr_encHdr (h : Hdr) (tail : Bytes) (hop : h.opcode < 16) (hlen : 
         have : (2:Nat) ^ 63 < 256 ^ 8 := by decide
         omega
       have hnot : ¬ (2 ^ 63 ≤ len) := by omega
-      simp [decodeHdr, b_toNat _ hb0, b_toNat _ hb1, e_op, e_fin, e_r1, e_r2, e_r3, e_m, e_pl, ht,
+      simp [decodeHdr, mkHdr, b_toNat _ hb0, b_toNat _ hb1, e_op, e_fin, e_r1, e_r2, e_r3, e_m, e_pl, ht,
         beDec_beEnc 8 len hlt, beEnc_length, hnot]
       cases masked <;> simp
 
@@ -140,7 +140,7 @@ theorem nextFrame_encodeFrame (gr : Cfg) (isClient : Bool) (key : Bytes) (hk : k
     (hcache : s.cache = encodeFrame isClient key opcode so fin data rsv1 ++ tail)
     (hop : opcode < 16) (hlen : data.length < 2 ^ 63)
     (hsz : sizeCheck gr (msgLen s) (infoOf isClient opcode so fin data rsv1) = none)
-    (hv : validFrame gr (infoOf isClient opcode so fin data rsv1).opcode fin rsv1 false false s.expecting = none) :
+    (hv : validFrame gr (infoOf isClient opcode so fin data rsv1).opcode fin rsv1 false false s.k.expecting = none) :
     nextFrame gr s = .frame (encodeFrame isClient key opcode so fin data rsv1).length
       (infoOf isClient opcode so fin data rsv1).opcode data fin rsv1 := by
   have hdec : decodeHdr s.cache = some (.ok (infoOf isClient opcode so fin data rsv1)) := by
